@@ -18,7 +18,7 @@ from ..model import datadef
 
 ID = 'C09'
 LEVEL = 'exploration'
-RULE = ('case = generated program (quick 40 / thorough 60 data statements) for one of 15 targets; a statement is drawn from the target\'s '
+RULE = ('case = generated program (quick 450 x 40 / thorough 5100 x 60 data statements) for one of 15 targets; a statement is drawn from the target\'s '
         'documented pseudo-ops with arguments from boundary pools (signed/unsigned field limits +-1, beyond 32 bit, float subnormal/halfway/'
         'carry/underflow/max, strings with escapes through CHARSET, [n] repeats, nested DUP, ?) under random PADDING/BIGENDIAN/PACKING/CHARSET '
         'settings; distinct = distinct (target, statement kind, argument-class set, settings, verdict class); every counted statement was '
@@ -30,6 +30,7 @@ ASSUMPTIONS = [
     'byte order inside one address unit of a word-granular target in the code file: most significant byte first for DSP56000, least significant first for AVR, TMS320C2x/C3x, PIC (per-target constant taken from a probe; shared with C04)',
     'the value of pad bytes, of the unused half of a partly filled word and of unused nibbles is left open by the manual and is not compared',
     'PADDING: a pad byte goes in front of a data object of 16 bits or more that would start at an odd address (section PADDING); nothing is inserted after an odd number of bytes',
+    'counts of reservation statements (DS, DFS/RMB, BSS, RES, Intel DS) are in address units of the current segment, DS.<size> n reserves n elements of that size',
     'hooks H3/H4 report emissions and diagnostics per source line; the code file is cross-checked against them through the independent reader',
 ]
 MANIFEST = dict(
@@ -51,10 +52,19 @@ ERR_RANGE = {'1315', '1320'}          # doc/error-messages.md: range underflow /
 
 def plan(tier, seed):
     if tier == 'quick':
-        n, k = 210, 40
+        n, k = 450, 40
     else:
         n, k = 5100, 60
-    return [{'cpu': CPUS[i % len(CPUS)], 'n': k} for i in range(n)]
+    cases = [{'cpu': CPUS[i % len(CPUS)], 'n': k} for i in range(n)]
+    # directed cases: every statement kind of every target opens a program with statements near the documented
+    # limits (20 arguments, 1 KiB of code per line) while the assembler's code buffer is still at its initial size
+    reps = 1 if tier == 'quick' else 12
+    for cpu in CPUS:
+        for fam in datadef.TARGETS[cpu].fam:
+            for kind in sorted(datadef.Gen.DIRECTED.get(fam, {})):
+                for r in range(reps):
+                    cases.append({'cpu': cpu, 'n': 10, 'big': kind, 'fam': fam})
+    return cases
 
 
 def line_events(trace):
@@ -112,7 +122,7 @@ def run_case(case, ctx):
     rng = ctx.rng
     tgt = datadef.TARGETS[case['cpu']]
     gen = datadef.Gen(rng, tgt)
-    items = gen.program(case['n'])
+    items = gen.program(case['n'], big=case.get('big'))
     good = [it for it in items if it.expect is None or it.expect == 'ok']
     bad = [it for it in items if it.expect is None or (it.expect or '').startswith('err')]
     out.sample = {'cpu': tgt.cpu, 'statements': [it.text.replace('\t', ' ') for it in items if it.expect][:10]}
